@@ -1477,7 +1477,9 @@ func (a *align) MaxCharStats(ignoreGaps, ignoreNs bool) (out []uint8, occur []in
 			// Otherwise, if v > max, we update max occurence char
 			if !(ignoreGaps && k == GAP) && !(ignoreNs && (k == all || k == allc)) {
 				total[site] += v
-				if v > max {
+				// ties are broken by the character code, not by the
+				// iteration order of the map, which changes at each run
+				if v > max || (v == max && k < out[site]) {
 					out[site] = k
 					occur[site] = v
 					max = v
